@@ -61,6 +61,9 @@ def cellOK : FieldKind → Bytes → Prop
   | .date, cell => (dateCell cell).toOption.isSome
   | _, _ => True
 
+instance (k : FieldKind) (cell : Bytes) : Decidable (cellOK k cell) := by
+  cases k <;> simp only [cellOK] <;> infer_instance
+
 /-- importer `c` of the driver, as a function of the entries it has consumed -/
 def typedF (kinds : Nat → FieldKind) (c : Nat) (D : List Bytes) : Imp :=
   (typedSpec (kinds c) D).getD { kind := kinds c }
